@@ -99,7 +99,7 @@ func (e *env) judgeOverlap(path, label string, msgs []*ovMsg, raw []byte, round 
 		wit["response"] = resp.String()
 	}
 
-	e.r.Violation(keyFor(path, m.exp, ps), "overlap burst: "+ps[0].what, wit)
+	e.violation(keyFor(path, m.exp, ps), "overlap burst: "+ps[0].what, wit)
 }
 
 func countMust(msgs []*ovMsg) (n int) {
